@@ -356,7 +356,7 @@ func vC02GroupT(id string, progs []string, nsym int, expectThrow bool) {
 	}
 }
 
-var vC02BinOps = []string{"<", "===", "&", "<=", "==", "!=", "|", "^", "<<", ">>", ">>>", "+", "-", "*", "/", "%"}
+var vC02BinOps = []string{"<", "+", "===", "&", "<=", "==", "!=", "|", "^", "<<", ">>", ">>>", "-", "*", "/", "%"}
 
 func H_C02_binary_const_vs_var() {
 	op := vC02BinOps[vBound("OP0")+vChoice("op", vBound("OPS"))]
